@@ -85,5 +85,6 @@ void runSlot(const Scn &scn, Out &out)
     obj.obs = &sink;
     if (tcp) tcp->log = nullptr;
     if (sock) { QObject::disconnect(sock, nullptr, nullptr, nullptr); delete sock.data(); }
+    if (tcp) delete tcp.data();      // a scenario without `new`: nothing took ownership of the transport
     eventTurn();
 }
